@@ -74,6 +74,7 @@ func (cs *clientState[T]) run() (err error) {
 
 	<-cs.chStop
 	cs.client.Stop(nil)
+	verifEvent("cs.afterStop", cs.node.Parent, cs.node.ID)
 
 	select {
 	case <-chClientStopped:
